@@ -124,6 +124,15 @@ Theorem C12_meets_spec : forall ops, Forall aop_ok2 ops -> arun a_init ops = sru
 Proof. exact impl_meets_spec. Qed.
 Print Assumptions C12_meets_spec.
 
+(* statements that perform several operations in order and stop at the first error (DIM a(..), b(..): every
+   array is allocated before the bounds of the next one - which may read elements of the earlier ones -
+   are evaluated; an evaluation error ends the statement and the arrays before it stay dimensioned):
+   the implementation model follows the specification on every history of such statements *)
+Theorem C12_statements_meet_spec : forall xs, Forall xop_ok xs ->
+  xrun a_init xs = sxrun sp_init [] xs /\ AInv (xfinal a_init xs).
+Proof. intros xs F. exact (statements_meet_spec xs a_init [] sp_init AInv_init agrees_init Sim_init F). Qed.
+Print Assumptions C12_statements_meet_spec.
+
 (* non-vacuity: a concrete history (DIM two arrays, write, read, out of range, ERASE, re-DIM) *)
 Example C12_nonvacuous :
   let A := [65; 37] in let B := [66; 33] in
